@@ -16,6 +16,20 @@ def make_docs(seed, n):
     docs = {}
     rng = random.Random(seed)
     for i in range(1, n + 1):
+        if i == 1:
+            # one document with every element kind the renderer knows (default / context / spline / polynomial calibrators, linear
+            # adjustments, time encodings, boolean expressions, units, descriptions): a comment or a prefix can land anywhere
+            from harness.props import c09
+            pts = {"DefaultCalibrator": "poly", "ContextCalibratorList": "two", "SplineCalibrator.order": str(seed % 2), "LinearAdjustment": "8x-8",
+                   "TimeEncoding.scale/offset": "offset+scale", "BooleanExpression.shape": ("and-of-or", "or-of-and")[seed % 2], "Unit": "s",
+                   "shortDescription": "short text", "LongDescription": "long text", "TerminationChar": "00", "ReferenceTime.Epoch": "TAI"}
+            if seed % 2:
+                pts["DefaultCalibrator"] = "spline"
+                pts["LeadingSize"] = "8"
+                del pts["TerminationChar"]
+            d = c09.lattice_defn(pts)
+            docs[i] = {"kind": "gen", "defn": d, "normal": project.normal(d)}
+            continue
         g = gendefs.DefGen(rng, rich=(i % 2 == 0)).build()
         docs[i] = {"kind": "gen", "defn": g.d, "normal": project.normal(g.d)}
     return docs
